@@ -610,6 +610,266 @@ def random_sequences(ctx, mg, res, deadline, ties=None):
     return done
 
 
+# ----------------------------------------------------------------------------- layer histories on ONE object
+#
+# Hidden-state facet.  Every history above starts from a freshly built geometry and mostly changes the layer *count*
+# between two operations that recount the column layers.  Here the same object goes through
+#     (something that recounts column layers)  ->  (layer elevations change, layer count does not)  ->  (recount)
+# in many orders, and after EVERY step (a) GeoInv is evaluated as everywhere else (layer count matching the surface,
+# recounted from layerlist, name lists fresh, ...) and (b) the state is compared with what a fresh object read from the
+# written file holds.  Anything the object remembers from an earlier call shows as a difference in (a) or (b).
+
+RT_TOL = 0.011        # the file keeps two decimals: a surface this close to a layer bottom may legitimately recount
+
+
+def roundtrip_state_diff(mg, g, tmpdir):
+    """differences between g and a fresh geometry read from g's own file, as [(subkind, message)].
+    Only what the file format keeps exactly is compared: number of columns / layers, the layer count of every column
+    whose surface is not within RT_TOL of a layer bottom, and (when there is no such column) the block name list.
+    returns None when the file cannot be written / read back (nothing to compare against)."""
+    import os
+    path = os.path.join(str(tmpdir), 'ls_%d.dat' % os.getpid())
+    try:
+        with G.quiet():
+            g.write(path)
+            g2 = mg.mulgrid(path)
+    except Exception:
+        return None
+    finally:
+        if os.path.exists(path):
+            os.remove(path)
+    out = []
+    if len(g2.columnlist) != len(g.columnlist) or len(g2.layerlist) != len(g.layerlist):
+        return [('shape', 'the geometry has %d columns / %d layers, the geometry read back from its file %d / %d'
+                 % (len(g.columnlist), len(g.layerlist), len(g2.columnlist), len(g2.layerlist)))]
+    bottoms = [float(l.bottom) for l in g.layerlist[1:]]
+    unstable, bad = 0, []
+    for c in g.columnlist:
+        c2 = g2.column.get(c.name)
+        if c2 is None:
+            return [('shape', 'column %r is not in the geometry read back from the file' % c.name)]
+        if c.surface is None or any(abs(float(c.surface) - b) <= RT_TOL for b in bottoms):
+            unstable += 1
+            continue
+        if c.num_layers != c2.num_layers:
+            bad.append('column %r (surface %r) has num_layers %r, the same column read back from the file has %r'
+                       % (c.name, float(c.surface), c.num_layers, c2.num_layers))
+    if bad:
+        out.append(('num_layers', bad[0] + (' (+%d more)' % (len(bad) - 1) if len(bad) > 1 else '')))
+    elif not unstable and list(g.block_name_list) != list(g2.block_name_list):
+        out.append(('blocks', 'block_name_list (%d names) differs from that of the geometry read back from the file (%d names)'
+                    % (len(g.block_name_list), len(g2.block_name_list))))
+    return out
+
+
+def near_tie(g):
+    """is some column surface within rounding distance of a layer bottom without being equal to it?  (thirds from
+    refine_layers(factor=3), re-accumulated thicknesses: the next shift can round the two onto each other, which
+    changes the count for a reason that is the arithmetic's, not the editing code's)"""
+    bottoms = [float(l.bottom) for l in g.layerlist[1:]]
+    for c in g.columnlist:
+        if c.surface is None:
+            continue
+        s = float(c.surface)
+        if any(0 < abs(s - b) <= 1e-9 * (1 + abs(s)) for b in bottoms):
+            return True
+    return False
+
+
+class LayerHistory:
+    """one geometry object taken through a history, judged after every step (used by the facet and by replay).
+    A state with a near tie between a surface and a layer bottom is still judged (GeoInv is exact on the doubles
+    in memory) but the history ends there (`unstable`): nothing is decided from a state that rounding could flip."""
+
+    def __init__(self, mg, recipe, tmpdir):
+        self.mg, self.tmp = mg, tmpdir
+        self.g = G.build(mg, recipe)
+        self.prev = G.geoinv(self.g)
+        self.viol = G.judge_start(self.prev)
+        self.trace, self.step, self.compared, self.unstable = [], -1, 0, False
+        self.alive = not any(v['key'] not in KNOWN() for v in self.viol)
+        if self.alive:
+            self._compare('build', None, self.prev)
+            self._tie()
+
+    def _tie(self):
+        if near_tie(self.g):
+            self.unstable, self.alive = True, False
+
+    def _compare(self, name, exc, cur):
+        if exc is not None or not G.consistent(cur) or not G.roundtrip_safe(self.g):
+            return []
+        d = roundtrip_state_diff(self.mg, self.g, self.tmp)
+        if d is None:
+            return []
+        self.compared += 1
+        vs = [{'key': 'roundtrip-state:%s@%s' % (sub, name), 'step': self.step,
+               'what': 'after %s: %s' % (name, msg)} for sub, msg in d]
+        self.viol += vs
+        return vs
+
+    def apply(self, op):
+        """returns the exception class name (or None); self.alive turns False when the history must end"""
+        self.step += 1
+        info = {}
+        try:
+            self.g, exc = G.apply_op(self.mg, self.g, op, self.tmp, info)
+        except G.Unresolved as e:
+            self.trace.append({'op': op[0], 'exc': 'unresolved: %s' % e})
+            self.alive = False
+            return 'Unresolved'
+        cur = G.geoinv(self.g)
+        vs = G.judge(op[0], exc, self.prev, cur, info.get('suffix', ''))
+        for v in vs:
+            v['step'] = self.step
+        self.viol += vs
+        vs = vs + self._compare(op[0], exc, cur)
+        self.trace.append({'op': op[0], 'exc': exc})
+        self.prev = cur
+        if exc is not None or vs or not G.consistent(cur) or not G.mesh_valid(cur):
+            self.alive = False
+        self._tie()
+        return exc
+
+
+def layer_recipes(mg, rng):
+    """small start geometries; most of them with explicit column surfaces (set through set_column_num_layers, as the
+    file reader does) so that layer counts differ from column to column"""
+    nx, ny = rng.randint(2, 4), rng.randint(1, 3)
+    rect = {'kind': 'rect', 'dx': [rng.choice([4., 8., 12.]) for _ in range(nx)], 'dy': [rng.choice([4., 8.]) for _ in range(ny)],
+            'dz': [rng.choice([1., 2., 2., 4., 8.]) for _ in range(rng.randint(2, 6))],
+            'atmos': rng.choice([0, 1, 2]), 'convention': rng.choice([0, 0, 1, 2]),
+            'origin': [rng.randint(-4, 4) * 4., rng.randint(-4, 4) * 4., rng.randint(-8, 8) * 0.5]}
+    label, recipe = rng.choice([('rect%dx%d' % (nx, ny), rect)] * 3 + small_recipes())
+    recipe = dict(recipe)
+    if rng.random() < 0.6:
+        recipe = with_surfaces(mg, recipe, rng)
+    return label, recipe
+
+
+def layer_step(g, rng, phase):
+    """one operation of the given phase on the current geometry:
+       'count'  something that recounts the layers of (all or some) columns,
+       'move'   layer elevations change while the number of layers stays the same,
+       'other'  an edit that touches neither (kept in to vary what lies between the two)"""
+    cols = sorted(g.columnlist, key=G.ckey)
+    L = lambda cs: [G.col_loc(c) for c in cs]
+    nlay = len(g.layerlist) - 1
+    top = g.layerlist[0].bottom
+    zs = [l.bottom for l in g.layerlist]
+    thick = [float(l.top - l.bottom) for l in g.layerlist[1:]]
+    some = lambda: rng.sample(cols, rng.randint(1, len(cols))) if rng.random() < 0.35 else []
+    if phase == 'count':
+        pick = rng.choice(['fit_surface', 'fit_surface', 'copy_same', 'copy_self', 'copy_any', 'refine1', 'refine1',
+                           'refine_layers', 'recount', 'recount', 'roundtrip', 'snap'])
+        if pick == 'fit_surface':
+            b = g.bounds
+            lo, hi = min(zs), max(zs)
+            slope = [rng.uniform(-1., 1.) * (hi - lo) / max(1., b[1][k] - b[0][k]) for k in (0, 1)]
+            z0 = rng.uniform(lo, hi)
+            # (layer_snap > 0 snaps to the surface layer, which a column fitted below the lowest layer does not have, and
+            #  a fit to sloping data extrapolates: only used with scattered data all at least 3 above the bottom of the stack)
+            snap = hi - lo > 3.0 and rng.random() < 0.3
+            pts = []
+            for _ in range(rng.randint(6, 16)):
+                x = b[0][0] + (b[1][0] - b[0][0]) * rng.randint(1, 31) / 32.
+                y = b[0][1] + (b[1][1] - b[0][1]) * rng.randint(1, 31) / 32.
+                if snap:
+                    z = rng.uniform(lo + 3.0, hi + 1.0)
+                else:
+                    z = min(hi + 1.0, max(lo + 0.5, z0 + slope[0] * (x - b[0][0]) + slope[1] * (y - b[0][1]) + rng.uniform(-0.5, 0.5)))
+                pts.append([H(x), H(y), H(z)])
+            if snap:     # ... and every column holds a data point (a column without data is fitted to elevation 0)
+                pts += [[H(c.centre[0]), H(c.centre[1]), H(rng.uniform(lo + 3.0, hi + 1.0))] for c in cols]
+            return ['fit_surface', {'data': pts, 'cols': [] if snap else L(some()), 'layer_snap': H(0.5 if snap else 0.0)}]
+        if pick == 'copy_self':          # the same layers again (copy_layers_from a copy of itself)
+            return ['copy_layers_from', {'dz': [H(t) for t in thick], 'top': H(top)}]
+        if pick == 'copy_same':          # the same number of layers, other thicknesses
+            for _ in range(8):
+                dz = [rng.choice([0.5, 1., 2., 3., 4., 6.]) for _ in range(nlay)]
+                if dz != thick:
+                    return ['copy_layers_from', {'dz': [H(t) for t in dz], 'top': H(top)}]
+        if pick == 'copy_any':
+            return ['copy_layers_from', {'dz': [H(rng.choice([1., 2., 3.])) for _ in range(rng.randint(1, 5))], 'top': H(top)}]
+        if pick == 'refine1':            # clear and re-add the same layers
+            return ['refine_layers', {'layers': [], 'factor': 1}]
+        if pick == 'refine_layers' and nlay * 2 <= MAX_LAYERS // 2:
+            lays = [l.name for l in g.layerlist[1:]]
+            return ['refine_layers', {'layers': rng.sample(lays, rng.randint(1, nlay)) if rng.random() < 0.6 else [],
+                                      'factor': rng.choice([2, 2, 3])}]
+        if pick == 'roundtrip' and G.roundtrip_safe(g):
+            return ['roundtrip']
+        if pick == 'snap':
+            sel = [c for c in (some() or cols) if c.num_layers >= 1]
+            if sel:
+                return [rng.choice(['snap_columns_to_nearest_layers', 'snap_columns_to_layers']),
+                        {'cols': L(sel), 'min_thickness': H(rng.choice([0.5, 1.0]))}]
+        return ['set_column_num_layers', {'cols': L(some())}]
+    if phase == 'move':
+        pick = rng.choice(['translate', 'translate', 'translate', 'copy_same'])
+        if pick == 'copy_same':
+            for _ in range(8):
+                dz = [rng.choice([0.5, 1., 2., 3., 4., 6.]) for _ in range(nlay)]
+                if dz != thick:
+                    return ['copy_layers_from', {'dz': [H(t) for t in dz], 'top': H(top)}]
+        span = max(1, int(4 * (max(zs) - min(zs))))
+        dzq = rng.choice([-1, 1]) * rng.randint(1, span)           # a non-zero multiple of 1/4, up to the stack height
+        flat = rng.random() < 0.5
+        return ['translate', {'shift': [H(0. if flat else rng.randint(-16, 16) / 4.), H(0. if flat else rng.randint(-16, 16) / 4.),
+                                        H(dzq / 4.)], 'wells': rng.random() < 0.5}]
+    pick = rng.choice(['rotate', 'rename_layer', 'setup_names', 'translate_h', 'identify_neighbours'])
+    if pick == 'rotate':
+        return ['rotate', {'angle': H(rng.choice([90., -90., 180.])), 'centre': [H(rng.randint(-4, 4) * 1.), H(rng.randint(-4, 4) * 1.)]}]
+    if pick == 'rename_layer' and nlay >= 1:
+        return ['rename_layer', {'old': rng.choice(g.layerlist[1:]).name, 'new': fresh_name(g, 'layer', rng, g.layername_length)}]
+    if pick == 'translate_h':
+        return ['translate', {'shift': [H(rng.randint(-16, 16) / 4.), H(rng.randint(-16, 16) / 4.), H(0.)]}]
+    return [pick if pick in ('setup_names', 'identify_neighbours') else 'setup_names']
+
+
+def layer_sequences(ctx, mg, res, deadline):
+    """histories count -> (move -> count)+ on one object, judged after every step"""
+    rng = ctx.rng('layer_sequences')
+    fac = res.facet('layer_sequences')
+    nseq = ctx.n(300, 6000)
+    done = 0
+    while done < nseq and time.time() < deadline:
+        label, recipe = layer_recipes(mg, rng)
+        h = LayerHistory(mg, recipe, ctx.tmp)
+        ops = []
+        plan = ['count'] * rng.randint(0 if recipe.get('surfaces') else 1, 2)
+        for _ in range(rng.randint(1, 3)):
+            plan += ['move'] * rng.randint(1, 2) + ['count'] * rng.randint(1, 2)
+        plan = [p for q in plan for p in ([q, 'other'] if rng.random() < 0.15 else [q])]
+        for phase in plan:
+            if not h.alive or len(h.g.layerlist) < 2 or not h.g.columnlist:
+                break
+            op = layer_step(h.g, rng, phase)
+            ops.append(op)
+            exc = h.apply(op)
+            res.count('layer-seq-op:' + opsig(op) + ('[factor=1]' if op[0] == 'refine_layers' and op[1].get('factor') == 1 else ''))
+            if exc is not None:
+                res.count('exc:%s@%s' % (exc, op[0]))
+        for v in h.viol:
+            res.violations.append(dict(key=v['key'], what='%s (one object, %d steps): %s' % (label, len(ops), v['what']),
+                                       case={'kind': 'layer_sequence', 'recipe': recipe,
+                                             'ops': ops[:v['step'] + 1] if v['step'] >= 0 else []}))
+        done += 1
+        if h.unstable:
+            res.unstable += 1
+            res.count('layer-seq-ended-at-near-tie')
+        fac['cases'] += 1
+        res.evaluations += 1
+        res.count('layer-seq-len', len(ops))
+        res.count('layer-seq-states-compared-with-file', h.compared)
+        res.count('start:layer-seq:' + ('rect' if label.startswith('rect') else label))
+        res.distinct.add(json.dumps(['layer_sequence', label, recipe.get('surfaces', []), ops], sort_keys=True))
+        if done % 40 == 1:
+            res.sample({'start': label, 'facet': 'layer_sequences', 'ops': [opsig(o) for o in ops],
+                        'violations': sorted({x['key'] for x in h.viol})})
+    return done
+
+
 def run(ctx):
     mg = G.load()
     res = Result()
@@ -617,13 +877,17 @@ def run(ctx):
                 'editing operations with column subsets as arguments on 2x2, 3x2 and two mixed tri/quad/pentagon geometries '
                 '(subset enumeration complete at depth 1 when 2^n-1 <= cap, seeded sample below); (b) seeded random sequences of length '
                 '3..25 over all operations on rectangular grids, strips and patches of the shipped geometries (<= 300 columns), with file '
-                'round trips interleaved; distinct = distinct (start geometry, operation list); every one is non-trivial (>= 1 edit)')
+                'round trips interleaved; (c) seeded histories on ONE object of the form recount-layers -> (layer elevations change, '
+                'count unchanged -> recount-layers)+ (fit_surface / copy_layers_from / refine_layers incl. factor 1 / set_column_num_layers / '
+                'read, vertical translate / same-count copy_layers_from), each state also compared with the fresh object read from its '
+                'own file; distinct = distinct (start geometry, operation list); every one is non-trivial (>= 1 edit)')
     t0 = time.time()
     if ctx.model_ok:
         M.private_driver('drv_c10', ctx.tmp)
     ties = Ties(ctx, mg, res, ctx.n(900, 100000))
     exhaustive(ctx, mg, res, t0 + ctx.n(40, 600), ties)
     random_sequences(ctx, mg, res, t0 + ctx.n(70, 1000), ties)
+    layer_sequences(ctx, mg, res, time.time() + ctx.n(15, 300))
     res.count('model:histories-tied', ties.used)
     return res
 
@@ -648,7 +912,15 @@ def replay(ctx, payload):
     c = payload.get('case') or {}
     if 'ops' not in c:
         return False, 'replay file names what no longer checks: %s' % payload.get('broken')
-    v, t, g = G.run_sequence(mg, c['recipe'], c['ops'], ctx.tmp, KNOWN())
+    if c.get('kind') == 'layer_sequence':
+        h = LayerHistory(mg, c['recipe'], ctx.tmp)
+        for op in c['ops']:
+            if not h.alive:
+                break
+            h.apply(op)
+        v, t = h.viol, h.trace
+    else:
+        v, t, g = G.run_sequence(mg, c['recipe'], c['ops'], ctx.tmp, KNOWN())
     lines = ['%d operations applied: %s' % (len(t), ', '.join('%s%s' % (x['op'], '!' + x['exc'] if x['exc'] else '') for x in t))]
     want = payload.get('key')
     hit = [x for x in v if want is None or x['key'] == want]
